@@ -89,6 +89,8 @@ Record step (T : N -> bytes -> Prop) (b : N) (f f' : fs) : Prop := {
   st_base : b <= f_next f;
   st_next : f_next f <= f_next f';
   st_frame : forall i, ~ reach f i -> i < b -> get f' i = get f i;
+  (* of the inodes that existed before the operation only directories are ever written *)
+  st_nd : forall i, i < b -> is_dir f i = false -> get f' i = get f i;
   st_enter : forall i, reach f' i -> reach f i \/ b <= i;
   st_tag : forall i, i < f_next f -> itag (get f' i) = itag (get f i);
   st_dent : forall j n, j < f_next f -> ~ T j n -> blookup n (ents f' j) = blookup n (ents f j);
@@ -131,6 +133,13 @@ Proof.
   - pose proof (st_next _ _ _ _ A). pose proof (st_next _ _ _ _ B). lia.
   - intros i Hn Hl. rewrite (st_frame _ _ _ _ B), (st_frame _ _ _ _ A); auto.
     intro Hr. destruct (st_enter _ _ _ _ A i Hr); [auto|lia].
+  - intros i Hl Hd. rewrite (st_nd _ _ _ _ B), (st_nd _ _ _ _ A); auto.
+    assert (Hl1 : i < f_next f1) by (pose proof (st_base _ _ _ _ A); lia).
+    pose proof (st_tag _ _ _ _ A i Hl1) as Ht.
+    destruct (is_dir f2 i) eqn:E2; auto. exfalso.
+    apply is_dir_dir_of in E2. destruct E2 as (p & es & E2). apply dir_of_tag in E2.
+    rewrite Ht in E2. apply tag_dir_of in E2. destruct E2 as (p' & es' & E2).
+    unfold is_dir in Hd. rewrite E2 in Hd. discriminate.
   - intros i Hr. destruct (st_enter _ _ _ _ B i Hr) as [H|H]; auto.
     destruct (st_enter _ _ _ _ A i H); auto.
   - intros i Hl. rewrite (st_tag _ _ _ _ B), (st_tag _ _ _ _ A); auto.
@@ -152,6 +161,7 @@ Proof.
   intros A Hb. constructor; try apply A.
   - pose proof (st_base _ _ _ _ A). lia.
   - intros i Hn Hl. apply (st_frame _ _ _ _ A); auto. lia.
+  - intros i Hl Hd. apply (st_nd _ _ _ _ A); auto. lia.
   - intros i Hr. destruct (st_enter _ _ _ _ A i Hr); auto. right. lia.
 Qed.
 
